@@ -725,7 +725,11 @@ DATE_GRID = [None, _dt.date(2020, 2, 29), _dt.date(2021, 1, 3), _dt.date(1999, 1
 DATETIME_GRID = [None, _dt.datetime(2020, 2, 29, 23, 59, 58), _dt.datetime(2021, 1, 3, 0, 0, 0)]
 STRDATE_GRID = [None, "2020-02-29", "1999-12-31"]
 STRDATETIME_GRID = [None, "2020-02-29 23:59:58", "1999-12-31 00:00:00"]
-GRIDS = {"num": NUM_GRID, "numx": NUMX_GRID, "int": INT_GRID, "bool": BOOL_GRID, "str": STR_GRID, "date": DATE_GRID, "datetime": DATETIME_GRID, "strdate": STRDATE_GRID, "strdatetime": STRDATETIME_GRID}
+NUMR_GRID = NUM_GRID + [1234.5678, -1234.5678, 15.5, 25.0, 0.125, 1249.99]  # rounding methods: several digits on both sides of the point
+STR2_GRID = STR_GRID + ["abcdef"]
+STRDATE2_GRID = [None, "2020/02/29", "1999/12/31"]
+STRDATETIME2_GRID = [None, "2020-02-29T23:59:58", "1999-12-31T00:00:00"]
+GRIDS = {"numr": NUMR_GRID, "str2": STR2_GRID, "strdate2": STRDATE2_GRID, "strdatetime2": STRDATETIME2_GRID, "num": NUM_GRID, "numx": NUMX_GRID, "int": INT_GRID, "bool": BOOL_GRID, "str": STR_GRID, "date": DATE_GRID, "datetime": DATETIME_GRID, "strdate": STRDATE_GRID, "strdatetime": STRDATETIME_GRID}
 #: value domains of the groups (<= 3 rows incl. nulls) used for aggregators and window functions
 GROUP_GRIDS = {"num": [None, -1.0, 1.0, 2.5], "bool": [None, True, False]}
 
@@ -741,12 +745,19 @@ class Method:
     note              why the domain is restricted (goes to rep.extra['domain_restrictions'])
     skip              reason why nothing can be compared at all (documentation pins no value)"""
 
-    def __init__(self, cls, catalog_expr, expr, args, ref, dom=None, note=None, skip=None):
+    def __init__(self, cls, catalog_expr, expr, args, ref, dom=None, note=None, skip=None, vid="catalog", consts=()):
         self.cls, self.catalog_expr, self.expr, self.args, self.ref, self.dom, self.note, self.skip = cls, catalog_expr, expr, list(args), ref, dom, note, skip
+        self.vid = vid  # 'catalog' = the catalog's own expression; other ids = the same method with other CONSTANT parameters / operand grids
+        self.consts = tuple(consts)  # constant operands written into `expr` (in operand order, after the column operands)
+        self.variants: List["Method"] = []
 
     @property
     def key(self) -> str:
         return "%s|%s" % (self.cls, self.catalog_expr)
+
+    @property
+    def uid(self) -> str:
+        return self.key if self.vid == "catalog" else "%s#%s" % (self.key, self.vid)
 
 
 def _all_nn(*a):
@@ -983,13 +994,121 @@ def _group_methods() -> List[Method]:
     return M
 
 
+def _round_ref(n: int):
+    """x rounded to n decimals (n < 0: to tens, hundreds).  'Return rounded values (given number of decimals)' does
+    not say how exact halves are rounded: for a half both neighbours are accepted (Either), every other value is pinned."""
+    import decimal
+
+    def f(a):
+        if a is None:
+            return None
+        if a != a or a in (float("inf"), float("-inf")):
+            return a
+        q = decimal.Decimal(1).scaleb(-n)
+        d = decimal.Decimal(repr(float(a)))
+        lo = float(d.quantize(q, rounding=decimal.ROUND_HALF_EVEN))
+        hi = float(d.quantize(q, rounding=decimal.ROUND_HALF_UP))
+        return lo if lo == hi else Either(lo, hi)
+
+    return f
+
+
+NOTE_CONST = "constant parameter variant (not the catalog's literal)"
+NOTE_EMPTY = "an empty is_in list / empty mapv dictionary cannot be written: the expression parser raises on [] and {}; coalesce(None) is refused by the builder (the both-null case is covered by coalesce of two columns)"
+
+
+def _variant_methods() -> List[Method]:
+    """The catalogued methods again with OTHER constant parameters than the catalog's literal: negative, zero and
+    positive constants, boundary values of second / third arguments, and wider operand grids where the constant
+    interacts with the magnitude of the operand.  Each variant names the catalog row it belongs to."""
+    V: List[Method] = []
+    nn1 = lambda a: a is not None  # noqa: E731
+    nn2 = lambda a, b: _all_nn(a, b)  # noqa: E731
+
+    def add(cls, cat, vid, expr, args, ref, dom=None, note=None, consts=()):
+        V.append(Method(cls, cat, expr, args, ref, dom, note or NOTE_CONST, None, vid, consts))
+
+    # --- rounding: decimals in {-2..2} x operands with digits on both sides of the point
+    for n in (-2, -1, 0, 1, 2):
+        add("e", "y.around(2)", "decimals=%d" % n, "a0.around(%d)" % n, ["numr"], _round_ref(n), None, "exact halves: either neighbour accepted (rounding rule of halves not documented)", consts=(n,))
+    add("e", "y.round()", "wide-grid", "a0.round()", ["numr"], _round_ref(0), None, "exact halves: either neighbour accepted ('subject to some rules')")
+    for nm, f in (("floor", math.floor), ("ceil", math.ceil)):
+        add("e", "y.%s()" % nm, "wide-grid", "a0.%s()" % nm, ["numr"], _prop(lambda a, f=f: float(f(a))), None, "wider operand grid")
+    # --- powers with a constant exponent (the SQL formatter special-cases the exponent 1)
+    for c, txt in ((1, "1"), (2, "2"), (0, "0"), (-1, "(-1)"), (0.5, "0.5")):
+        add("e", "x ** y", "exponent=%s" % c, "a0 ** %s" % txt, ["num"], lambda a, c=c: math.pow(a, c), lambda a, c=c: _pow_dom(a, c), "only real, finite powers; " + NN, consts=(c,))
+    # --- binary operators and two-argument methods with a constant second operand
+    arith = {"+": lambda a, b: a + b, "-": lambda a, b: a - b, "*": lambda a, b: a * b, "/": lambda a, b: a / b, "%/%": lambda a, b: a / b}
+    cmpo = {"==": lambda a, b: a == b, "!=": lambda a, b: a != b, "<": lambda a, b: a < b, "<=": lambda a, b: a <= b, ">": lambda a, b: a > b, ">=": lambda a, b: a >= b}
+    for op, f in list(arith.items()) + list(cmpo.items()):
+        for c, txt in ((-1, "(-1)"), (0, "0"), (2.5, "2.5")):
+            if op in ("/", "%/%") and c == 0:
+                continue
+            add("e", "x %s y" % op, "const=%s" % c, "a0 %s %s" % (op, txt), ["num"], lambda a, f=f, c=c: f(a, c), nn1, NN, consts=(c,))
+    for nm, f in (("maximum", _prop(max)), ("minimum", _prop(min)), ("fmax", lambda a, b: _fmax(a, b, max)), ("fmin", lambda a, b: _fmax(a, b, min))):
+        for c, txt in ((0, "0"), (-1, "(-1)"), (2.5, "2.5")):
+            add("e", "row_id.%s(x)" % nm, "const=%s" % c, "a0.%s(%s)" % (nm, txt), ["num"], lambda a, f=f, c=c: f(a, c), consts=(c,))
+    for c in (1, 2, 3):
+        add("e", "row_id % q", "const=%d" % c, "a0 %% %d" % c, ["int"], lambda a, c=c: a % c, lambda a: a is not None and a >= 0, NOTE_MOD + "; " + NN, consts=(c,))
+        add("e", "row_id // q", "const=%d" % c, "a0 // %d" % c, ["int"], lambda a, c=c: a // c, lambda a: a is not None and a >= 0, "negative operands not documented; " + NN, consts=(c,))
+        if c != 2:
+            add("e", "row_id.mod(2)", "const=%d" % c, "a0.mod(%d)" % c, ["int"], lambda a, c=c: a % c, lambda a: a is not None and a >= 0, NOTE_MOD + "; " + NN, consts=(c,))
+            add("e", "row_id.remainder(2)", "const=%d" % c, "a0.remainder(%d)" % c, ["int"], lambda a, c=c: a % c, lambda a: a is not None and a >= 0, NOTE_MOD + "; " + NN, consts=(c,))
+    # --- coalesce: both operands columns (null with null), other constants
+    add("e", "z.coalesce(2)", "two-columns", "a0.coalesce(a1)", ["num", "num"], lambda a, b: b if a is None else a, None, "second operand a column (covers coalesce of null with null); " + NOTE_EMPTY)
+    add("e", "z %?% 2", "two-columns", "a0 %?% a1", ["num", "num"], lambda a, b: b if a is None else a, None, "second operand a column (covers coalesce of null with null)")
+    for c, txt in ((0, "0"), (-1.5, "(-1.5)")):
+        add("e", "z.coalesce(2)", "const=%s" % c, "a0.coalesce(%s)" % txt, ["num"], lambda a, c=c: c if a is None else a, consts=(c,))
+    # --- if_else / where with constant branches
+    add("e", "a.if_else(x, y)", "const-branches", "a0.if_else(1, 2)", ["bool"], lambda c: None if c is None else (1 if c else 2), consts=(1, 2))
+    add("e", "a.where(x, y)", "const-branches", "a0.where(1, 2)", ["bool"], lambda c: 1 if c is True else 2, consts=(1, 2))
+    # --- is_in: list syntax, singleton, other members, strings
+    add("e", "row_id.is_in({1, 3})", "list", "a0.is_in([1, 3])", ["int"], lambda a: a in (1, 3), nn1, NN + "; " + NOTE_EMPTY)
+    add("e", "row_id.is_in({1, 3})", "singleton", "a0.is_in({1})", ["int"], lambda a: a == 1, nn1, NN)
+    add("e", "row_id.is_in({1, 3})", "members=0,-1,1000000", "a0.is_in({0, -1, 1000000})", ["int"], lambda a: a in (0, -1, 1000000), nn1, NN)
+    add("e", "row_id.is_in({1, 3})", "strings", 'a0.is_in({"a", "abc"})', ["str"], lambda a: a in ("a", "abc"), nn1, NN)
+    # --- mapv: default omitted (missing for unmapped values), negative default, the empty string as a key
+    add("e", 'g.mapv({"a": 1, "b": 2, "z": 26}, 0)', "no-default", 'a0.mapv({"a": 1, "b": 2, "z": 26})', ["str"], lambda a: {"a": 1, "b": 2, "z": 26}.get(a), nn1, NN + "; " + NOTE_EMPTY)
+    add("e", 'g.mapv({"a": 1, "b": 2, "z": 26}, 0)', "default=-1", 'a0.mapv({"a": 1, "abc": 3}, -1)', ["str"], lambda a: {"a": 1, "abc": 3}.get(a, -1), nn1, NN)
+    add("e", 'g.mapv({"a": 1, "b": 2, "z": 26}, 0)', "empty-string-key", 'a0.mapv({"": 7, "a": 1}, 0)', ["str"], lambda a: {"": 7, "a": 1}.get(a, 0), nn1, NN)
+    # --- trimstr: other start / stop constants (start inclusive, stop exclusive)
+    for st, en in ((0, 1), (1, 3), (0, 0), (2, 10), (2, 4)):
+        add("e", "g.trimstr(0, 2)", "start=%d,stop=%d" % (st, en), "a0.trimstr(%d, %d)" % (st, en), ["str2"], lambda a, st=st, en=en: a[st:en], nn1, NN + "; negative positions not documented", consts=(st, en))
+    # --- concat with constants
+    add("e", "g.concat(s2)", "const=_", 'a0.concat("_")', ["str"], lambda a: a + "_", nn1, NN, consts=("_",))
+    add("e", 'g %+% "_" %+% s2', "const=empty", 'a0 %+% ""', ["str"], lambda a: a, nn1, NN, consts=("",))
+    # --- date formats other than the defaults
+    add("e", "date_col_0.format_date()", "format=%Y/%m/%d", 'a0.format_date("%Y/%m/%d")', ["date"], lambda a: a.strftime("%Y/%m/%d"), nn1, NN)
+    add("e", "date_col_0.format_date()", "format=%d.%m.%y", 'a0.format_date("%d.%m.%y")', ["date"], lambda a: a.strftime("%d.%m.%y"), nn1, NN)
+    add("e", "datetime_col_0.format_datetime()", "format=%H:%M", 'a0.format_datetime("%H:%M")', ["datetime"], lambda a: a.strftime("%H:%M"), nn1, NN)
+    add("e", "str_date_col.parse_date()", "format=%Y/%m/%d", 'a0.parse_date("%Y/%m/%d")', ["strdate2"], lambda a: _dt.datetime.strptime(a, "%Y/%m/%d").date(), nn1, NN)
+    add("e", "str_datetime_col.parse_datetime()", "format=T", 'a0.parse_datetime("%Y-%m-%dT%H:%M:%S")', ["strdatetime2"], lambda a: _dt.datetime.strptime(a, "%Y-%m-%dT%H:%M:%S"), nn1, NN)
+    # --- shift amounts: further back, forward (negative), beyond the partition
+    for k in (1, 2, 3, -1, -2):
+        V.append(Method("w", "x.shift()", "v.shift(%d)" % k, ["num"], _win("shift", k), None, NOTE_CONST + "; shift(0) is refused by the builder", None, "periods=%d" % k, (k,)))
+    # --- sum of a constant
+    for cls, wrap_ in (("g", _const), ("p", lambda f: f)):
+        for c, txt in ((0, "(0)"), (2, "(2)"), (-1, "(-1)")):
+            V.append(Method(cls, "(1).sum()", "%s.sum()" % txt, [], wrap_(lambda vals, c=c: c * len(vals)), None, NOTE_CONST, None, "const=%d" % c, (c,)))
+    return V
+
+
 def doc_meaning() -> Dict[str, Method]:
-    """(op_class|catalog expression) -> Method for every row of op_catalog.methods_table."""
+    """(op_class|catalog expression) -> Method for every row of op_catalog.methods_table; Method.variants holds
+    the same method with other constant parameters / operand grids (see _variant_methods)."""
     out: Dict[str, Method] = {}
     for m in _scalar_methods() + _group_methods():
         if m.key in out:
             raise ValueError("duplicate doc_meaning entry " + m.key)
         out[m.key] = m
+    seen = set()
+    for v in _variant_methods():
+        if v.key not in out:
+            raise ValueError("variant for an unknown catalog row " + v.key)
+        if v.uid in seen:
+            raise ValueError("duplicate variant " + v.uid)
+        seen.add(v.uid)
+        out[v.key].variants.append(v)
     return out
 
 
